@@ -211,6 +211,12 @@ func tmplPart(p string) string {
 		return ""
 	}
 	switch p[0] {
+	case 'B':
+		// round 6: a template that is expensive to PARSE and renders to its own code: B<k> = a dead branch of k*1000 actions
+		// followed by the literal text B<k> (the model's rendering of an unknown code is the code itself)
+		if k, err := strconv.Atoi(p[1:]); err == nil && k > 0 && k <= 64 {
+			return "{{if false}}" + strings.Repeat("{{.source}}x", k*1000) + "{{end}}" + p
+		}
 	case 'c':
 		return p[1:]
 	case 'p', 'e':
@@ -255,6 +261,12 @@ func gunYAML(kv map[string]string, csvFile, jsonFile string) string {
 			uri += "/" + tmplPart(p)
 		}
 		fmt.Fprintf(&b, "    \"uri\": %s\n", yq(uri))
+		if kv["tm"] == "h" {
+			// round 6: the html templater (its own getTemplate / cache); the values the cases render need no escaping
+			b.WriteString("    \"templater\":\n      \"type\": \"html\"\n")
+		} else if kv["tm"] == "t" {
+			b.WriteString("    \"templater\":\n      \"type\": \"text\"\n")
+		}
 		{
 			b.WriteString("    \"headers\":\n")
 			fmt.Fprintf(&b, "      \"X-C15-Run\": %s\n", yq(runNonce))
